@@ -51,7 +51,11 @@ def dstep (s : DState) (toks : List String) : DState × List String :=
     | _ => (s, ["bad-op"])
   | ["cursor", w, h, xh, yh] =>
     match ints? [w, h, xh, yh] with
-    | some [w, h, xh, yh] => ({ s with scr := { s.scr with cursor := ⟨w, h, xh, yh⟩ } }, ["ok"])
+    | some [w, h, xh, yh] =>
+      -- rfbSetCursor: also mid-session, with clients connected
+      let scr' := { s.scr with cursor := ⟨w, h, xh, yh⟩ }
+      let s' := mapClients s (fun cl => setCursor s.scr scr' cl)
+      ({ s' with scr := scr' }, ["ok"])
     | _ => (s, ["bad-op"])
   | ["client", n] =>
     match n.toNat? with
